@@ -39,8 +39,13 @@ class Mutator(ast.NodeTransformer):
             return True
         return False
 
+    only = None
+
     def visit_FunctionDef(self, node):
-        if node.name in SKIP_FUNCS:
+        if self.only is not None:
+            if node.name not in self.only and not self.func:
+                return node
+        elif node.name in SKIP_FUNCS:
             return node
         self.func.append(node.name)
         r = self.generic_visit(node)
@@ -130,16 +135,30 @@ def count_mutants(tree):
     return m.count
 
 
+MODS = ["writers_tasks", "network_tasks"]
+RUN_AB = True
+
+
 def run_checks(src_dir, jobs):
-    env = dict(os.environ, VERIF_REPO=os.path.dirname(src_dir))
+    scratch = tempfile.mkdtemp(prefix="mutout_")
+    try:
+        return _run_checks(src_dir, jobs, scratch)
+    finally:
+        shutil.rmtree(scratch, ignore_errors=True)
+
+
+def _run_checks(src_dir, jobs, scratch):
+    env = dict(os.environ, VERIF_REPO=os.path.dirname(src_dir), RUN_MOD_OUT=os.path.join(scratch, "mod"), RUN_MOD_JOBS=str(jobs))
     out = {}
     t0 = time.time()
-    p = subprocess.run(["/venv/bin/python", os.path.join(HERE, "runner.py"), "--stratum", "AB", "--jobs", str(jobs), "--out", tempfile.mkdtemp(prefix="mutout_")],
-                       capture_output=True, text=True, env=env, cwd=HERE, timeout=1800)
-    line = [l for l in p.stdout.splitlines() if l.startswith("{")]
-    out["AB"] = json.loads(line[0].split("} ")[0] + "}") if line else {"error": p.stdout[-300:] + p.stderr[-300:]}
-    bad = [l.strip()[:160] for l in p.stdout.splitlines() if l.strip().startswith(("sat", "unknown", "UNDECIDED"))][:3]
-    for mod in ("writers_tasks", "network_tasks"):
+    bad = []
+    if RUN_AB:
+        p = subprocess.run(["/venv/bin/python", os.path.join(HERE, "runner.py"), "--stratum", "AB", "--jobs", str(jobs), "--out", os.path.join(scratch, "ab")],
+                           capture_output=True, text=True, env=env, cwd=HERE, timeout=1800)
+        line = [l for l in p.stdout.splitlines() if l.startswith("{")]
+        out["AB"] = json.loads(line[0].split("} ")[0] + "}") if line else {"error": p.stdout[-300:] + p.stderr[-300:]}
+        bad = [l.strip()[:160] for l in p.stdout.splitlines() if l.strip().startswith(("sat", "unknown", "UNDECIDED"))][:3]
+    for mod in MODS:
         q = subprocess.run(["/venv/bin/python", os.path.join(HERE, "tools", "run_mod.py"), mod], capture_output=True, text=True, env=env, cwd=HERE, timeout=1800)
         line = [l for l in q.stdout.splitlines() if l.startswith("{")]
         out[mod] = json.loads(line[0].split("} ")[0] + "}") if line else {"error": q.stdout[-300:]}
@@ -162,7 +181,18 @@ def main():
     ap.add_argument("--out", default=os.path.join(HERE, "out", "mutation_campaign.jsonl"))
     ap.add_argument("--files", default=",".join(FILES))
     ap.add_argument("--tests", action="store_true", help="also run the repository tests on each mutant")
+    ap.add_argument("--mods", default=",".join(MODS), help="contracts modules whose tasks are run on each mutant")
+    ap.add_argument("--no-ab", action="store_true", help="do not run strata A and B")
+    ap.add_argument("--skip-funcs", default=None, help="replace the default list of functions that are not mutated")
+    ap.add_argument("--only-funcs", default="", help="mutate only inside these functions (overrides the skip list)")
     a = ap.parse_args()
+    MODS[:] = [m for m in a.mods.split(",") if m]
+    globals()["RUN_AB"] = not a.no_ab
+    if a.skip_funcs is not None:
+        SKIP_FUNCS.clear()
+        SKIP_FUNCS.update(x for x in a.skip_funcs.split(",") if x)
+    if a.only_funcs:
+        Mutator.only = set(a.only_funcs.split(","))
     rng = random.Random(a.seed)
     cands = []
     for f in a.files.split(","):
